@@ -12,6 +12,7 @@ RULE = (
     "pair (and triple for b<=2) of symbols for schemes with memory, all groups concatenated, seeded random sequences, short 1-D sequences of 1..4 symbols; layouts 1-D and (B,L) "
     "with B in {1,3}; each call in eval mode on freshly reset state. Distinct = (scheme configuration, layout, bit sequence); non-trivial = sequence contains a 1."
     " Added after the seeded-fault rounds: round trip after training-mode use + reset; DPSK through the gray_coded= alias and bits_per_symbol=; bit tensors as float64/int64/int32/int8/uint8/bool must give the same symbols; variants of one scheme/order share a child process."
+    " Round 5: modem form axis (deep copy of a used pair, .double().float(), state_dict twin) for one representative per (scheme, order)."
 )
 ASSUMPTIONS = [
     "expected bits: memoryless = input; DPSK family = input minus the first symbol's group; OQPSK = in-phase bit of symbol i, quadrature bit of symbol i-1 (first quadrature output unconstrained); pi/4-QPSK = input",
